@@ -28,7 +28,9 @@ RULE = ("exhaustive fixed grids of member tuples: three tuple_operators structs 
 def run(tier, replay=None):
     run_ = verdict.Run(PROP, tier, LEVEL, replay_of=replay)
     scale = 2 if tier == "quick" else 3
-    tags = ["gasan"] if tier == "quick" else ["gasan", "casan"]
+    # the plain build is there for the allocator: ASan's quarantine keeps freed addresses from being reused,
+    # the address-reuse observations (pointer hashes) need a run in which they are
+    tags = ["gasan", "plain"] if tier == "quick" else ["gasan", "casan", "plain"]
     total = {}
     conc = collections.Counter()
     if replay:
@@ -57,10 +59,13 @@ def run(tier, replay=None):
                 run_.violation(f[1], f[2] if len(f) > 2 else "", case)
             elif line.startswith("SAMPLE ") and tag == tags[0]:
                 run_.sample(line[7:])
-            elif line.startswith("STATS") and tag == tags[0]:
+            elif line.startswith("STATS"):
                 for kv in line.split()[1:]:
                     k, v = kv.rsplit("=", 1)
-                    total[k] = int(v)
+                    if tag == tags[0]:
+                        total[k] = int(v)
+                    elif k == "pointer-addresses-reused":
+                        total["pointer-addresses-reused:" + tag] = int(v)
     pairs = sum(v for k, v in total.items() if k.startswith("pairs:"))
     if not replay:
         # hashing, comparing and hash containers from 2-16 threads on thread-private values
